@@ -69,6 +69,29 @@ func (r *debounceRunner) Do(op []string) string {
 		})
 		synctest.Wait()
 		return itoa(r.now())
+	case "parcall":
+		// parcall <goroutines> <calls each>: a burst issued by several goroutines at one virtual instant; it counts
+		// as ONE call of the history (all callbacks carry the same call number), so "at most once per burst"
+		// becomes "at most one log entry with this number"
+		k, tc := r.ncalls, r.now()
+		r.ncalls++
+		var wg sync.WaitGroup
+		for gi := 0; gi < atoi(op[1]); gi++ {
+			wg.Add(1)
+			go func() {
+				defer wg.Done()
+				for j := 0; j < atoi(op[2]); j++ {
+					r.call(func() {
+						r.mu.Lock()
+						r.log = append(r.log, [3]int{r.now(), k, tc})
+						r.mu.Unlock()
+					})
+				}
+			}()
+		}
+		wg.Wait()
+		synctest.Wait()
+		return itoa(r.now())
 	case "cancel":
 		r.cancel()
 		synctest.Wait()
@@ -230,6 +253,18 @@ var c20waits = []int{5, 10, 20, 50}
 func c20sleep(ms int) string { return "sleep " + itoa(ms) }
 
 func genC20(g *Gen) {
+	// bursts issued by several goroutines at one virtual instant (the debouncer's own locking is part of "at most
+	// once per burst")
+	for _, w := range []int{5, 20} {
+		for rep := 0; rep < 6; rep++ {
+			if !g.Mine() {
+				continue
+			}
+			g.Emit("debounce", []string{itoa(w)}, []string{"parcall 8 50", "fired", "sleep " + itoa(w-1), "fired", "sleep 1", "fired",
+				"sleep " + itoa(w+1), "fired", "parcall 4 100", "cancel", "sleep " + itoa(w+1), "fired", "parcall 8 20", "sleep 1",
+				"parcall 8 20", "sleep " + itoa(w), "fired", "sleep 1", "fired"})
+		}
+	}
 	// the property's scope ("every arrangement up to length 6") is covered by the quick tier already
 	seqLen := 6
 	if g.Thorough() {
